@@ -251,7 +251,7 @@ impl Prop for C11 {
                     }
                     Done::Flushed { .. } | Done::Reopened => {
                         let settled = match op {
-                            OpSpec::Flush { wait } => *wait,
+                            OpSpec::Flush { wait, .. } => *wait,
                             _ => true,
                         };
                         if settled {
